@@ -17,6 +17,7 @@
      while the tree was being built            -- the serializers stay total functions; xml_tree_result turns the marker into Err TypeError
    None / "" stored where the normal form     Err NotNormalForm    (req_some)
      wants a str (e.g. log.message = e.text)
+   e.text or ""                               or_empty (xtext e)   (None and "" both give "")
    truthiness `if x:` on Optional[str]        truthy_ostr (None and "" are false)   -- NOT the same as `is not None` = is_some
    truthiness on Optional[float]              truthy_otime (None and 0.0 are false)
    ET.tostring + file write + ET.parse        MODELLED, not verified: xml_write_check / xml_norm (validated against the real library by the check)
@@ -64,6 +65,7 @@ Definition req_str (o : option str) : str := match o with Some s => s | None => 
 Definition fmt_otime (tc : textcodec) (o : option Z) : str :=
   match o with Some t => tfmt tc t | None => raised_TypeError end.
 
+Definition or_empty (o : option str) : str := match o with Some (c :: s) => c :: s | _ => [] end.
 Definition truthy_str (s : str) : bool := match s with [] => false | _ => true end.
 Definition truthy_ostr (o : option str) : bool := match o with Some (_ :: _) => true | _ => false end.
 Definition truthy_otime (o : option Z) : bool := match o with Some t => negb (Z.eqb t 0) | None => false end.
@@ -132,4 +134,12 @@ Fixpoint xml_norm (e : xml) : res xml :=
                  end) c ;;
         Ok (Elem t a (match c with [] => norm_text tx | _ => None end) c')
       else Err ReportLoadingError
+  end.
+
+(* what xml_norm returns on a tree whose strings are all XML Chars and whose texts hold no CR: only "" -> None in leaf elements
+   (used by the proofs; xml_norm itself is the model of the text layer) *)
+Fixpoint xml_strip (e : xml) : xml :=
+  match e with
+  | Elem t a tx c =>
+      Elem t a (match c with [] => match tx with Some [] => None | x => x end | _ => None end) (map xml_strip c)
   end.
